@@ -344,6 +344,22 @@ def call_mapper(fn: MapperCallbackType | None, node: Node, data: dict) -> Any:
     return res
 
 
+def call_serialize_mapper(
+    fn: MapperCallbackType | None, node: Node, data: dict
+) -> dict:
+    """Call a serialization mapper `fn(node, data)` and return the entry dict.
+
+    The mapper may modify `data` in-place (and return `None`) or return a new
+    dict. In the latter case, the pre-filled entries of `data` that the new
+    dict does not define (e.g. `data_id` and `kind`) are added to the result.
+    """
+    res = call_mapper(fn, node, data)
+    if res is not data and isinstance(res, dict):
+        for key, value in data.items():
+            res.setdefault(key, value)
+    return res
+
+
 def call_predicate(fn: Callable, node: Node) -> IterationControl | None | Any:
     """Call the function and normalize result and exceptions.
 
